@@ -326,7 +326,9 @@ theorem runFrame_ent (p : Prog) (hh : Hist) (s : St) (f : Frame) (e : Nat)
     split
     · exact Or.inl rfl
     · split
-      · exact (entStep_despawn1 s _ e).post rfl rfl
+      · split
+        · exact (entStep_despawn1 s _ e).post rfl rfl
+        · eclose
       · split <;> eclose
   | poll => exact Or.inl (by simp [runFrame, doPoll, St.push])
 
@@ -645,7 +647,9 @@ theorem runFrame_loc (p : Prog) (hh : Hist) (s : St) (f : Frame) (e : Nat)
     split
     · exact Or.inl rfl
     · split
-      · exact (locStep_despawn1 s _ e).post rfl rfl
+      · split
+        · exact (locStep_despawn1 s _ e).post rfl rfl
+        · eclose
       · split <;> eclose
   | poll => exact Or.inl (by simp [runFrame, doPoll, St.push])
 
